@@ -241,6 +241,8 @@ def _e2e_cfg(rng, family, spin, k, cheap=False, thorough=False):
         c["interp"] = str(rng.choice(["onsite_direct", "onsite_spline"]))
         if thorough and rng.random() < 0.3:
             c["aux_lambd"] = float(rng.choice([1.8, 2.0]))
+        if not cheap and k % 3 == 1:
+            c["prune_thr"] = float(rng.choice([1e-7, 1e-5]))
     if cheap:
         c["nset"] = 1
         c["basis"] = "sto-3g"
@@ -1049,7 +1051,23 @@ def _drive_e2e(rec, cfg, rng, key, lmax=None):
         mol, model, ks = _build_e2e(cfg, rng, lmax=lmax)
         rec.tag("natm", mol.natm)
         dm = _dms(mol, rng, nspin, int(cfg.get("nset", 1)))
+        if cfg.get("prune_thr"):
+            # density pruning (ks.small_rho_cutoff > 0 does this in the first SCF cycle): the grid in use is then a subset of
+            # the atom-ordered grid the indexer was built for - added after a seeded change that sized per-atom spline
+            # arrays from the unpruned bookkeeping
+            from pyscf.dft import numint as pn
+            dmt = dm if int(cfg.get("nset", 1)) == 1 else (dm[0] if nspin == 1 else dm[:, 0])
+            dtot = dmt if nspin == 1 else dmt[0] + dmt[1]
+            rho = pn.eval_rho(mol, pn.eval_ao(mol, ks.grids.coords), dtot, xctype="LDA")
+            n0 = ks.grids.weights.size
+            ks.grids.prune_by_density_(rho, float(cfg["prune_thr"]))
+            rec.tag("e2e_density_pruned", "%s" % ("yes" if ks.grids.weights.size < n0 else "no-points-dropped"))
         n, e, v = _nr(ks, dm, nspin, max_memory=cfg.get("max_memory", 2000))
+        if cfg.get("prune_thr") and model.settings.has_nldf and not model.settings.has_sdmx and int(cfg.get("nset", 1)) == 1:
+            from ciderpress.pyscf import rks_grad, uks_grad
+            gmod = rks_grad if nspin == 1 else uks_grad
+            eg, vg = gmod.get_vxc_full_response(ks._numint, mol, ks.grids, ks.xc, dm)
+            rec.require("e2e_finite", bool(np.all(np.isfinite(vg)) and np.all(np.isfinite(eg))), mechanism="get_vxc_full_response:nonfinite[pruned-grid]")
     except Exception as ex:  # noqa: BLE001 - an admissible call that raises is outside C18: the sub-case is not conclusive
         rec.note("valid_call_raised[%s]" % key, "%s: %s" % (type(ex).__name__, str(ex)[:300]))
         rec.set_inconclusive("admissible end-to-end call raised %s (%s)" % (type(ex).__name__, key))
